@@ -34,7 +34,9 @@ def glue_case(t, r):
         d2 = c.definition()
         ok = (d2 == d and d == d2 and (d2.objects, d2.properties, d2.bools) == (d.objects, d.properties, d.bools)
               and c.shape == d.shape and c.fill_ratio == d.fill_ratio and c.tostring() == d.tostring() and str(d) == d.tostring()
-              and c.crc32() == d.crc32() and concepts.Context(*d2) == c and not (concepts.Context(*d2) != c))
+              and c.crc32() == d.crc32() and concepts.Context(*d2) == c and not (concepts.Context(*d2) != c)
+              and all(c.crc32(encoding=enc) == d.crc32(encoding=enc) for enc in ('utf-16', 'utf-8', 'latin-1', 'utf-16'))
+              and repr(c).count(c.crc32()) == 1)
         # equality of contexts is equality of triples
         e = d.copy()
         o0, p0 = d.objects[0], d.properties[0]
